@@ -38,11 +38,15 @@ def obligations(tier):
                   encodes=['recognizers_date_time.date_time.base_datetime:BaseDateTimeParser.merge_date_and_time'],
                   stubs=['date/time extractors return fixed spans; date parser returns a symbolic date']))
     L = 'harness.layouts:'
-    tl = [{'kind': 'time', 'culture': 'en-us', 'layout': l} for l in ('hh:mm', 'hh:mm:ss', 'h:mm ap', 'h ap', 'hap')]
+    tl = [{'kind': 'time', 'culture': 'en-us', 'layout': l} for l in ('hh:mm', 'hh:mm:ss', 'h:mm ap', 'h ap', 'hap', 'hmmap')]
     obs.append(Ob('O7.1-language', 'fn', L + 'inclusion', slices=tl, timeout=t,
                   descr='every 24-hour time HH:MM[:SS] and every 12-hour time with am/pm/a.m./p.m. is fully matched by one of the English time patterns',
                   bounds='unbounded over the layout language (all h, m, s)', engine='z3 regular-expression solver on an over-approximating translation of the real pattern sources (assertions dropped)',
                   encodes=['recognizers_date_time.date_time.english.time_extractor_config:EnglishTimeExtractorConfiguration.__init__']))
+    obs.append(Ob('O7.1-language-parser', 'fn', L + 'inclusion', slices=[dict(x, side='parser') for x in tl], timeout=t,
+                  descr='the same layouts are fully matched by one of the patterns of the English time PARSER configuration (an extracted time no parser pattern matches stays unresolved)',
+                  bounds='unbounded over the layout language', engine='z3 regular-expression solver on an over-approximating translation of the real pattern sources (assertions dropped)',
+                  encodes=['recognizers_date_time.date_time.english.time_parser_config:EnglishTimeParserConfiguration.__init__']))
     obs.append(Ob('O7.1-api-members', 'fn', L + 'api_members', slices=[dict(x, n=12 if tier == 'quick' else 80) for x in tl], timeout=t,
                   descr='composition check: solver-generated times resolve through recognize_datetime to that time', bounds='12 (thorough 80) z3 models per layout'))
     return obs
